@@ -87,6 +87,36 @@ func fatalFacts(s *src, f *facts) {
 		})
 	}
 	f.b("seOnlyOwnLock", own, s.pos(se))
+	// every path through setErr closes the pending-call table (the two branches differ only in the cause)
+	var alwaysCloses func(list []ast.Stmt) bool
+	alwaysCloses = func(list []ast.Stmt) bool {
+		for _, st := range list {
+			switch v := st.(type) {
+			case *ast.ExprStmt:
+				if c, ok := v.X.(*ast.CallExpr); ok && strings.HasSuffix(s.str(c.Fun), ".Close") {
+					return true
+				}
+			case *ast.ReturnStmt:
+				return false
+			case *ast.IfStmt:
+				t := alwaysCloses(v.Body.List)
+				e := false
+				if eb, ok := v.Else.(*ast.BlockStmt); ok {
+					e = alwaysCloses(eb.List)
+				}
+				if t && e {
+					return true
+				}
+				if !t && len(v.Body.List) > 0 {
+					if _, ret := v.Body.List[len(v.Body.List)-1].(*ast.ReturnStmt); ret {
+						return false
+					}
+				}
+			}
+		}
+		return false
+	}
+	f.b("seClosesOnEveryPath", sb != nil && alwaysCloses(sb.List), s.pos(se))
 	// Link tail
 	waits := false
 	if lb != nil {
@@ -223,7 +253,9 @@ func registryFacts(s *src, f *facts) {
 	ld := hookCall(ub, "hooks", "OnClientDisconnect")
 	f.b("rgRegistryDisconnectHook", rd != nil && li2.heldFor(rd), s.pos(rd))
 	f.b("rgLinkDisconnectHook", ld != nil && li2.heldFor(ld), s.pos(ld))
-	f.b("rgUnregisterAtomic", del != nil && li2.heldFor(del) && rd != nil && li2.heldFor(rd), s.pos(del))
+	// (the removal is one of the deferred function's OWN statements and the defer one of the goroutine's: neither
+	// sits under a further condition)
+	f.b("rgUnregisterAtomic", del != nil && li2.heldFor(del) && rd != nil && li2.heldFor(rd) && directStmt(ub, del) && directStmt(sb, unregDefer), s.pos(del))
 	wait := first(s.callsToShallow(sb, "Wait"))
 	lastIsWait := false
 	if sb != nil && len(sb.List) > 0 {
@@ -540,4 +572,24 @@ func wireFacts(s *src, f *facts) {
 	f.s("tagResErr", tagOf(s, rs, "Err"), s.pos(rs))
 	f.s("tagMsgRequest", tagOf(s, ms, "Request"), s.pos(ms))
 	f.s("tagMsgResponse", tagOf(s, ms, "Response"), s.pos(ms))
+}
+
+// directStmt: n is (part of) one of the block's own statements — not nested in an if / for / switch / block.
+func directStmt(b *ast.BlockStmt, n ast.Node) bool {
+	if b == nil || isNilNode(n) {
+		return false
+	}
+	for _, st := range b.List {
+		if ast.Node(st) == n {
+			return true
+		}
+		switch st.(type) {
+		case *ast.IfStmt, *ast.ForStmt, *ast.RangeStmt, *ast.SwitchStmt, *ast.TypeSwitchStmt, *ast.SelectStmt, *ast.BlockStmt:
+			continue
+		}
+		if contains(st, n) {
+			return true
+		}
+	}
+	return false
 }
